@@ -96,6 +96,12 @@ CONF = {
         "tiers": tiers(8, 2500, 16, 60000),
         "require_classes": ["refresh:none", "refresh:manual", "refresh:autoinj", "refresh:autort", "mutator-after-abort", "mutator-after-complete", "cancelled"],
     },
+    "C04": {
+        "rule": "cases = clocked scenarios (manual refresh) on byte buffers and on ptys of 2-8 rows x 40-100 columns: bars added, removed, popped, queued, extended with 1-3 extra rows above or below, text written between frames, render delay, bar counts below/at/above the height; plus non-terminal containers without refresh; every chunk is fed to the VT emulator and the screen+scrollback compared with persisted lines ++ rows of the frame; non-trivial = >=3 frames and (row counts differ, or a frame within one row of the height, or text between frames); distinct by FNV-64 of the scenario JSON",
+        "assumptions": GO_ASSUME + SCHED_ASSUME + ["VT100-subset emulator (LF implies CR as on a tty with ONLCR, cursor up clamps at the top, erase below, autowrap at the right margin, scroll into scrollback at the bottom) is part of the trusted base", "which rows persist and how many rows a frame has comes from the reference frame model (exact for manual refresh, one client, n<=q)", "terminal resize between frames is not modelled"],
+        "tiers": tiers(8, 1200, 16, 30000),
+        "require_classes": ["refresh:manual", "refresh:none", "pty", "delay", "frame-near-height", "text-between-frames", "popped"],
+    },
     "C05": {
         "rule": "cases = sequential scenarios (container config, 1-7 bar specs, program of add/incr/set/abort/priority/write/tick/cancel steps) drawn by rapid; non-trivial = >=3 frames and >=1 change of the displayed set between frames; distinct by FNV-64 of the scenario JSON",
         "assumptions": GO_ASSUME + SCHED_ASSUME + ["one output Write call = one frame (cwriter flushes its buffer with a single Write)", "exact frame model only for manual refresh, sequential client and queue length > number of bars; otherwise history invariants"],
